@@ -171,6 +171,7 @@ type phoutCase struct {
 	CancelUs int   `json:"cancel_after_last_report_us"` // −1: Gosched only, 0: immediately
 	LateRun  bool  `json:"run_started_after_first_reports"`
 	Pad      int   `json:"pad_bytes,omitempty"` // boundary sweeps: every tag is padded to this length
+	GapMs    int   `json:"idle_gap_ms,omitempty"` // every goroutine pauses this long after its first third of reports
 	Seed     int64 `json:"seed"`
 }
 
@@ -223,6 +224,10 @@ func phoutOnce(res *vkit.Result, c phoutCase) {
 				}
 				if !c.WithID {
 					tag = fmt.Sprintf("%s~%d", tag, id) // make the line identify its report ('~' is not in the tag alphabet)
+				}
+				if c.GapMs > 0 && k == c.K/3+1 {
+					// nothing is reported for longer than the aggregator's idle-flush period
+					time.Sleep(time.Duration(c.GapMs) * time.Millisecond)
 				}
 				s, w := makeSample(grng, id, tag)
 				wants[g] = append(wants[g], w)
@@ -342,6 +347,7 @@ type jsCase struct {
 	SlowUs   int   `json:"slow_sink_us"` // >0: direct construction with a slow sink (drops certain)
 	CancelUs int   `json:"cancel_after_last_report_us"`
 	Pad      int   `json:"pad_bytes,omitempty"` // boundary sweeps: fixed-size samples
+	GapMs    int   `json:"idle_gap_ms,omitempty"`
 	Seed     int64 `json:"seed"`
 }
 
@@ -398,6 +404,9 @@ func jsonlinesOnce(res *vkit.Result, c jsCase) {
 				}
 				if grng.Intn(3) == 0 && c.Pad == 0 {
 					s.M = map[string]string{genTag(grng): genTag(grng)}
+				}
+				if c.GapMs > 0 && k == c.K/3+1 {
+					time.Sleep(time.Duration(c.GapMs) * time.Millisecond)
 				}
 				mu.Lock()
 				reported[s.ID] = s
@@ -890,6 +899,23 @@ func main() {
 		sweep(3900, 3950, 0, 4096)
 		sweep(8000, 8050, 0, 512<<10)
 		sweep(8000, 8050, 64<<10, 64<<10)
+	}
+	// idle gaps: longer than the 1 s idle-flush / flush-interval timers, then more reports
+	{
+		var wg sync.WaitGroup
+		for i, gap := range []int{1150, 1600, 2300} {
+			wg.Add(2)
+			go func(i, gap int) {
+				defer wg.Done()
+				phoutOnce(res, phoutCase{G: 1 + i, K: 8, Queue: 64, WithID: true, CancelUs: 0, GapMs: gap, Seed: int64(40 + i)})
+			}(i, gap)
+			go func(i, gap int) {
+				defer wg.Done()
+				jsonlinesOnce(res, jsCase{G: 1 + i, K: 8, Queue: 64, FlushMs: 1000, CancelUs: 0, GapMs: gap, Seed: int64(50 + i)})
+			}(i, gap)
+			res.Count("idle_gap_runs", 2)
+		}
+		wg.Wait()
 	}
 	jsonlinesOnce(res, jsCase{G: 4, K: 200, Queue: 1, FlushMs: 1, SlowUs: 300, CancelUs: 0, Seed: 21})
 	jsonlinesOnce(res, jsCase{G: 2, K: 10, Queue: 64, FlushMs: 1000, CancelUs: 0, Seed: 22})
